@@ -122,8 +122,8 @@ theorem C10_iota_complete (ms : List Member) (k : Nat)
 /-- The defect of the pinned commit, as a theorem: exported values 0, 0, 1 were flagged. -/
 theorem isIotaDecisionOld_unsound :
     ∃ ms : List Member, isIotaDecisionOld .int ms = true ∧ exportedVals ms = [0, 0, 1] := by
-  refine ⟨[⟨"A", "0", "0", "", true, true, 0⟩, ⟨"B", "0", "0", "", true, true, 0⟩,
-           ⟨"C", "1", "1", "", true, true, 1⟩], ?_, ?_⟩ <;> decide
+  refine ⟨[⟨"A", "0", "0", "", true, true, 0, ""⟩, ⟨"B", "0", "0", "", true, true, 0, ""⟩,
+           ⟨"C", "1", "1", "", true, true, 1, ""⟩], ?_, ?_⟩ <;> decide
 
 /-- multi-name constant specs: the comment lookup of any name but the first crashes
 (the code as it was at the pinned commit; repaired by a `fix:` commit) -/
@@ -133,7 +133,7 @@ theorem constCommentOld_crash_iff (c : ConstFact) :
   split <;> simp_all [Outcome.isCrash]
 
 /-! non-vacuity: a block with an unexported member interleaved -/
-example : isIotaDecision .int [⟨"A", "0", "0", "", true, true, 0⟩, ⟨"b", "5", "5", "", false, true, 5⟩,
-    ⟨"C", "1", "1", "", true, true, 1⟩] = true := by decide
+example : isIotaDecision .int [⟨"A", "0", "0", "", true, true, 0, ""⟩, ⟨"b", "5", "5", "", false, true, 5, ""⟩,
+    ⟨"C", "1", "1", "", true, true, 1, ""⟩] = true := by decide
 
 end Gomacro.Analysis
